@@ -820,6 +820,66 @@ def run_aliased_members(w) -> None:
             loaded.unload()
 
 
+SETSTATE_SOURCE = '''
+import icontract
+
+
+@icontract.invariant(lambda self: HUB.inv("positive:" + str(self.__dict__.get("x", "blank")), self) and self.x > 0)
+class Stateful{base}:
+    def __init__(self, x):
+        self.x = x
+
+    def __getstate__(self):
+        return {{"x": self.x}}
+
+    def __setstate__(self, state):
+        HUB.body("setstate", {{"state": state}})
+        self.x = state["x"]
+'''
+
+
+def run_setstate(w) -> None:
+    """copy / pickle build a blank object and hand the state over with __setstate__: the object is under construction until
+    __setstate__ returns - no invariant before it, all of them right after it."""
+    import copy  # pylint: disable=import-outside-toplevel
+    import pickle  # pylint: disable=import-outside-toplevel
+
+    import icontract  # pylint: disable=import-outside-toplevel
+
+    for base in ("", "(icontract.DBC)"):
+        loaded = prog.load_source(SETSTATE_SOURCE.format(base=base), w.scratch())
+        mod, hub = loaded.module, loaded.hub
+        try:
+            original = mod.Stateful(3)
+            for tag, op, want, want_events in (
+                    ("copy", lambda: copy.copy(original), "returned", [("body", "setstate"), ("inv", "positive:3")]),
+                    ("deepcopy", lambda: copy.deepcopy(original), "returned", [("body", "setstate"), ("inv", "positive:3")]),
+                    ("pickle", lambda: pickle.loads(pickle.dumps(original)), "returned", [("body", "setstate"), ("inv", "positive:3")]),
+                    ("invalid-state", lambda: mod.Stateful.__new__(mod.Stateful).__setstate__({"x": -4}), "violation", None)):
+                hub.reset()
+                try:
+                    op()
+                    outcome = "returned"
+                except icontract.ViolationError:
+                    outcome = "violation"
+                except BaseException as err:  # pylint: disable=broad-except
+                    outcome = "raise {}: {}".format(type(err).__name__, str(err)[:120])
+                # (__getstate__ of the original is an ordinary public operation on a finished object; only what follows it is judged)
+                evs = [(e.kind, e.id) for e in hub.events]
+                if ("body", "setstate") in evs:
+                    evs = evs[evs.index(("body", "setstate")):]
+                before = [e for e in [(e.kind, e.id) for e in hub.events] if e[0] == "inv" and e[1] == "positive:blank"]
+                w.count("operations")
+                w.count("setstate_operations")
+                w.case(("setstate", tag, base))
+                if outcome != want or before or (want_events is not None and evs != want_events):
+                    w.violation("C03/invariant-evaluated-on-blank-object-before-setstate", "{} ({}): {}; invariants evaluated on the blank object: {}; "
+                                "events from __setstate__ on: {} (expected {} with {})".format(tag, base or "plain class", outcome, before, evs, want, want_events),
+                                {"setstate": tag, "base": base})
+        finally:
+            loaded.unload()
+
+
 def run_factory_new(w) -> None:
     """__new__ of a class without __init__ acting as a factory for its subclasses (which may have constructors)."""
     # (only on the contract-inheriting base: invariants on plain subclasses of invariant-carrying classes are a silent zone)
@@ -869,6 +929,7 @@ def run(w) -> None:
         run_nested_new(w)
         run_sibling_new(w)
         run_aliased_members(w)
+        run_setstate(w)
     n = 12000 if w.tier == "thorough" else 1200
     flavours = ["plain", "plain", "plain", "slots", "dataclass", "frozen", "own-new", "namedtuple"]
     for i in range(n):
@@ -902,6 +963,9 @@ def replay(case, w) -> None:
         return
     if "aliased" in case:
         run_aliased_members(w)
+        return
+    if "setstate" in case:
+        run_setstate(w)
         return
     plans = plans_from_json(case["plans"])
     oracle = Oracle(plans)
